@@ -2542,7 +2542,7 @@ class ProvDocument(ProvBundle):
             if hasattr(source, "read"):
                 return serializer.deserialize(source, **args)
             else:
-                with open(source) as f:
+                with open(source, "rb") as f:
                     return serializer.deserialize(f, **args)
 
 
